@@ -46,23 +46,39 @@ class Array:
     __array_priority__ = 3000
 
     def __init__(self, whole=None, chunks=None, thunk=None, shape=None, dtype=None):
-        self._whole = whole
-        self._thunk = thunk
+        self._state = [whole, thunk]      # replaced (not mutated) by item assignment: lazy children keep the state they captured
         self._shape = tuple(whole.shape) if whole is not None else (tuple(shape) if shape is not None else None)
         self._dtype = whole.dtype if whole is not None else (_np.dtype(dtype) if dtype is not None else None)
         self._chunks = chunks
         self.ncomputes = 0
 
     # -- lazy plumbing
+    @property
+    def _whole(self):
+        return self._state[0]
+
+    @property
+    def _thunk(self):
+        return self._state[1]
+
+    @staticmethod
+    def _eval(st):
+        if st[0] is None:
+            w = st[1]()
+            st[0] = w if isinstance(w, SymArray) else symnp.asarray(w)
+        return st[0]
+
+    def _cap(self):
+        """a getter bound to the array's *current* graph (dask graphs are immutable snapshots)"""
+        st = self._state
+        return lambda: Array._eval(st)
+
     def compute(self, **kw):
-        if self._whole is None:
-            self._whole = self._thunk()
-            if not isinstance(self._whole, SymArray):
-                self._whole = symnp.asarray(self._whole)
-            self._shape = tuple(self._whole.shape)
-            self._dtype = self._whole.dtype
+        w = Array._eval(self._state)
+        self._shape = tuple(w.shape)
+        self._dtype = w.dtype
         self.ncomputes += 1
-        return self._whole
+        return w
 
     @property
     def shape(self):
@@ -102,7 +118,8 @@ class Array:
         return self.shape[0]
 
     def _lazy(self, f, chunks='same', shape='same', dtype=None):
-        return Array(None, self._chunks if chunks == 'same' else chunks, lambda: f(self.compute()),
+        get = self._cap()
+        return Array(None, self._chunks if chunks == 'same' else chunks, lambda: f(get()),
                      shape=self._shape if shape == 'same' else shape, dtype=dtype)
 
     def astype(self, dt, **kw):
@@ -111,7 +128,7 @@ class Array:
     def rechunk(self, chunks):
         ch = _norm_chunks(chunks, self.shape, self.chunks)
         return Array(self._whole, ch, self._thunk, self._shape, self._dtype) if self._whole is not None else \
-            Array(None, ch, self.compute, self._shape, self._dtype)
+            Array(None, ch, self._cap(), self._shape, self._dtype)
 
     def copy(self):
         return self._lazy(lambda a: a.copy())
@@ -137,7 +154,7 @@ class Array:
         return map_overlap(f, self, *a, **k)
 
     def to_delayed(self):
-        blocks = _split(self.compute(), self.chunks)
+        blocks = _split(self.compute(), self.chunks)     # evaluated eagerly: per-block values of the current graph
         nb = self.numblocks
         arr = _np.empty(nb, dtype=object)
         for pos, b in blocks:
@@ -146,17 +163,27 @@ class Array:
 
     # -- indexing
     def __getitem__(self, key):
-        def f(a):
-            k = key.compute() if isinstance(key, Array) else key
-            return a[k]
-        return Array(None, None, lambda: f(self.compute()))
+        get = self._cap()
+        kget = key._cap() if isinstance(key, Array) else (lambda: key)
+        return Array(None, None, lambda: get()[kget()])
+
+    def __setitem__(self, key, val):
+        """dask supports masked / basic item assignment: it replaces the array's graph in place"""
+        prev = self._cap()
+        kget = key._cap() if isinstance(key, Array) else (lambda: key)
+        vget = val._cap() if isinstance(val, Array) else (lambda: val)
+
+        def run():
+            base = symnp.asarray(prev()).copy()
+            base[kget()] = vget()
+            return base
+        self._state = [None, run]
 
     # -- elementwise
     def _bin(self, o, f):
-        def run():
-            b = o.compute() if isinstance(o, Array) else o
-            return f(self.compute(), b)
-        return Array(None, self._chunks, run, shape=self._shape)
+        get = self._cap()
+        oget = o._cap() if isinstance(o, Array) else (lambda: o)
+        return Array(None, self._chunks, lambda: f(get(), oget()), shape=self._shape)
 
     def __add__(self, o): return self._bin(o, lambda a, b: a + b)
     def __radd__(self, o): return self._bin(o, lambda a, b: b + a)
@@ -186,12 +213,14 @@ class Array:
         return float(self.compute())
 
     def _red(self, name):
-        return Array(None, (), lambda: symnp.asarray(getattr(symnp, name)(self.compute())), shape=())
+        get = self._cap()
+        return Array(None, (), lambda: symnp.asarray(getattr(symnp, name)(get())), shape=())
 
     def sum(self, axis=None, **kw):
         if axis is None:
             return self._red('sum')
-        return Array(None, None, lambda: self.compute().sum(axis=axis))
+        get = self._cap()
+        return Array(None, None, lambda: get().sum(axis=axis))
 
     def min(self, **kw): return self._red('min')
     def max(self, **kw): return self._red('max')
@@ -255,6 +284,7 @@ def map_blocks(f, *args, dtype=None, meta=None, chunks=None, drop_axis=None, new
             # dask unifies chunks: the common refinement
             pass
     CALLS.append(('map_blocks', getattr(f, '__name__', str(f)), ref.chunks))
+    getters = [_g(a) for a in args]
 
     def run():
         # unify chunks to the common refinement (what dask.array.core.unify_chunks does for equal shapes)
@@ -269,12 +299,11 @@ def map_blocks(f, *args, dtype=None, meta=None, chunks=None, drop_axis=None, new
             chs.append(tuple(b - a for a, b in zip(cuts[:-1], cuts[1:])))
         chs = tuple(chs)
         splits = []
-        for a in args:
+        for a, get in zip(args, getters):
             if isinstance(a, Array) and a.ndim > 0:
-                splits.append(dict(_split(a.compute(), chs)))
+                splits.append(dict(_split(get(), chs)))
             elif isinstance(a, Array):
-                v = a.compute()
-                splits.append(v)
+                splits.append(get())
             else:
                 splits.append(a)
         nblocks = tuple(len(c) for c in chs)
@@ -338,8 +367,10 @@ def map_overlap(f, *args, depth=None, boundary=None, trim=True, meta=None, align
     if isinstance(boundary, str):
         raise sc.ShimMissing("map_overlap(boundary=%r)" % boundary)
 
+    getters = [_g(a) for a in arrs]
+
     def run():
-        wholes = [a.compute() for a in arrs]
+        wholes = [g() for g in getters]
         shp = wholes[0].shape
         for w in wholes:
             if w.shape != shp:
@@ -379,7 +410,8 @@ def _lift1(name):
     def g(x, *a, **k):
         if isinstance(x, Array):
             if name in ('nanmean', 'nanstd', 'nanmin', 'nanmax', 'min', 'max', 'ptp', 'nansum', 'sum', 'mean', 'std', 'nanvar') and not a and not k.get('axis'):
-                return Array(None, (), lambda: symnp.asarray(getattr(symnp, name)(x.compute())), shape=())
+                get = x._cap()
+                return Array(None, (), lambda: symnp.asarray(getattr(symnp, name)(get())), shape=())
             return x._lazy(lambda w: getattr(symnp, name)(w, *a, **k))
         return getattr(symnp, name)(x, *a, **k)
     g.__name__ = name
@@ -396,39 +428,49 @@ def _c(x):
     return x.compute() if isinstance(x, Array) else x
 
 
+def _g(x):
+    """getter bound to x's graph at this moment"""
+    return x._cap() if isinstance(x, Array) else (lambda: x)
+
+
 def where(c, a, b):
     ch = c._chunks if isinstance(c, Array) else None
-    return Array(None, ch, lambda: symnp.where(_c(c), _c(a), _c(b)), shape=getattr(c, '_shape', None))
+    gc, ga, gb = _g(c), _g(a), _g(b)
+    return Array(None, ch, lambda: symnp.where(gc(), ga(), gb()), shape=getattr(c, '_shape', None))
 
 
 def logical_or(a, b):
     ch = a._chunks if isinstance(a, Array) else None
-    return Array(None, ch, lambda: symnp.logical_or(_c(a), _c(b)), shape=getattr(a, '_shape', None))
+    ga, gb = _g(a), _g(b)
+    return Array(None, ch, lambda: symnp.logical_or(ga(), gb()), shape=getattr(a, '_shape', None))
 
 
 def logical_and(a, b):
     ch = a._chunks if isinstance(a, Array) else None
-    return Array(None, ch, lambda: symnp.logical_and(_c(a), _c(b)), shape=getattr(a, '_shape', None))
+    ga, gb = _g(a), _g(b)
+    return Array(None, ch, lambda: symnp.logical_and(ga(), gb()), shape=getattr(a, '_shape', None))
 
 
 def stack(arrs, axis=0, allow_unknown_chunksizes=False):
-    arrs = list(arrs)
-    return Array(None, None, lambda: symnp.stack([_c(a) for a in arrs], axis=axis))
+    gs = [_g(a) for a in arrs]
+    return Array(None, None, lambda: symnp.stack([g() for g in gs], axis=axis))
 
 
 def concatenate(arrs, axis=0, allow_unknown_chunksizes=False):
-    arrs = list(arrs)
-    return Array(None, None, lambda: symnp.concatenate([symnp.asarray(_c(a)) for a in arrs], axis=axis))
+    gs = [_g(a) for a in arrs]
+    return Array(None, None, lambda: symnp.concatenate([symnp.asarray(g()) for g in gs], axis=axis))
 
 
 def percentile(a, q, **kw):
     if a.ndim != 1:
         raise NotImplementedError("Percentiles only implemented for 1-d arrays")
-    return Array(None, None, lambda: symnp.asarray(symnp.percentile(_c(a), q)))
+    ga = _g(a)
+    return Array(None, None, lambda: symnp.asarray(symnp.percentile(ga(), q)))
 
 
 def unique(a, **kw):
-    return Array(None, None, lambda: symnp.unique(_c(a), **kw))
+    ga = _g(a)
+    return Array(None, None, lambda: symnp.unique(ga(), **kw))
 
 
 def linspace(start, stop, num=50, endpoint=True, dtype=None, chunks='auto', **kw):
@@ -436,6 +478,9 @@ def linspace(start, stop, num=50, endpoint=True, dtype=None, chunks='auto', **kw
 
 
 def arange(*a, chunks='auto', **kw):
+    if any(isinstance(v, Array) for v in a):
+        # dask (2026.8) cannot build a range from lazy bounds
+        raise TypeError("An error occurred while calling the arange method registered to the numpy backend (lazy dask scalars are not accepted as bounds)")
     w = symnp.arange(*a, **kw)
     return Array(w, ((w.size,),))
 
